@@ -25,7 +25,6 @@ int_t @p@lacon_(int_t *n, @T@ *v, @T@ *x, @R@ *est, int_t *kase)
 int_t @p@lacon_(int_t *n, @T@ *v, @T@ *x, int_t *isgn, @R@ *est, int_t *kase)
 #endif
 {
-  __CPROVER_assume(g_lacon_calls < MAXROUNDS);   /* keeps the ghost counters from overflowing; see "assumptions" */
   __CPROVER_assert(n == &in_L.nrow, "lacon: order is L->nrow");
   __CPROVER_assert(v == x + *n, "lacon: v is the second block of the work array");
   if (g_lacon_calls == 0) {
@@ -40,6 +39,7 @@ int_t @p@lacon_(int_t *n, @T@ *v, @T@ *x, int_t *isgn, @R@ *est, int_t *kase)
   if (nondet_bool()) { @R@ e = nondet_real(); __CPROVER_assume(e == e); *est = e; }
   g_est = *est;
   int_t k = nondet_int_t(); __CPROVER_assume(0 <= k && k <= 2);
+  if (g_lacon_calls >= MAXROUNDS) k = 0;      /* the estimator stops after at most MAXROUNDS products (see "assumptions") */
   *kase = k; g_last_kase = k;
   if (g_lacon_calls == g_r) { g_rk = k; g_rn = 0; }
   g_lacon_calls++;
